@@ -602,7 +602,22 @@ impl<V: VringT<GM> + Clone + Send + Sync + 'static> Drop for Fx<V> {
         if let Some(mut d) = self.daemon.take() {
             // other duplicates of the harness end may still be open: make sure the daemon thread ends
             d.request_shutdown();
-            let _ = d.wait();
+            // a daemon thread that is deadlocked (which the check that owns this fixture has already reported, or will
+            // report as a request that is never answered) must not hang the harness as well: wait in a helper, give up
+            // after a few seconds and leave the stuck threads behind
+            let h = std::thread::Builder::new().name("fx_drop".into()).spawn(move || {
+                let _ = d.wait();
+                drop(d);
+            });
+            if let Ok(h) = h {
+                let t0 = Instant::now();
+                while !h.is_finished() && t0.elapsed() < Duration::from_secs(8) {
+                    std::thread::sleep(Duration::from_millis(1));
+                }
+                if h.is_finished() {
+                    let _ = h.join();
+                }
+            }
         }
         let _ = std::fs::remove_file(&self.path);
     }
@@ -685,5 +700,109 @@ impl<V: VringT<GM> + Clone + Send + Sync + 'static> Sess<V> {
         let Sess { fx, cl, .. } = self;
         drop(cl);
         fx.teardown();
+    }
+}
+
+// ------------------------------------------------------------------ a ring type with hold points at every lock acquisition
+
+/// `VringRwLock` with a hold point ("vring.lock") right before every acquisition of the ring's lock: lets the harness
+/// park the control thread (or the worker) between two lock acquisitions, e.g. while it still holds an earlier guard.
+#[derive(Clone)]
+pub struct HookVring(pub VRw);
+
+impl<'a> vhost_user_backend::VringStateGuard<'a, GM> for HookVring {
+    type G = std::sync::RwLockReadGuard<'a, vhost_user_backend::VringState<GM>>;
+}
+impl<'a> vhost_user_backend::VringStateMutGuard<'a, GM> for HookVring {
+    type G = std::sync::RwLockWriteGuard<'a, vhost_user_backend::VringState<GM>>;
+}
+
+fn vl() {
+    vhost::vhost_user::verif::hold("vring.lock");
+}
+
+impl VringT<GM> for HookVring {
+    fn new(mem: GM, max_queue_size: u16) -> Result<Self, virtio_queue::Error> {
+        Ok(HookVring(VRw::new(mem, max_queue_size)?))
+    }
+    fn get_ref(&self) -> std::sync::RwLockReadGuard<'_, vhost_user_backend::VringState<GM>> {
+        vl();
+        self.0.get_ref()
+    }
+    fn get_mut(&self) -> std::sync::RwLockWriteGuard<'_, vhost_user_backend::VringState<GM>> {
+        vl();
+        self.0.get_mut()
+    }
+    fn add_used(&self, desc_index: u16, len: u32) -> Result<(), virtio_queue::Error> {
+        vl();
+        self.0.add_used(desc_index, len)
+    }
+    fn signal_used_queue(&self) -> std::io::Result<()> {
+        vl();
+        self.0.signal_used_queue()
+    }
+    fn enable_notification(&self) -> Result<bool, virtio_queue::Error> {
+        vl();
+        self.0.enable_notification()
+    }
+    fn disable_notification(&self) -> Result<(), virtio_queue::Error> {
+        vl();
+        self.0.disable_notification()
+    }
+    fn needs_notification(&self) -> Result<bool, virtio_queue::Error> {
+        vl();
+        self.0.needs_notification()
+    }
+    fn set_enabled(&self, enabled: bool) {
+        vl();
+        self.0.set_enabled(enabled)
+    }
+    fn set_queue_info(&self, desc_table: u64, avail_ring: u64, used_ring: u64) -> Result<(), virtio_queue::Error> {
+        vl();
+        self.0.set_queue_info(desc_table, avail_ring, used_ring)
+    }
+    fn queue_next_avail(&self) -> u16 {
+        vl();
+        self.0.queue_next_avail()
+    }
+    fn set_queue_next_avail(&self, base: u16) {
+        vl();
+        self.0.set_queue_next_avail(base)
+    }
+    fn set_queue_next_used(&self, idx: u16) {
+        vl();
+        self.0.set_queue_next_used(idx)
+    }
+    fn queue_used_idx(&self) -> Result<u16, virtio_queue::Error> {
+        vl();
+        self.0.queue_used_idx()
+    }
+    fn set_queue_size(&self, num: u16) {
+        vl();
+        self.0.set_queue_size(num)
+    }
+    fn set_queue_event_idx(&self, enabled: bool) {
+        vl();
+        self.0.set_queue_event_idx(enabled)
+    }
+    fn set_queue_ready(&self, ready: bool) {
+        vl();
+        self.0.set_queue_ready(ready)
+    }
+    fn set_kick(&self, file: Option<std::fs::File>) {
+        vl();
+        self.0.set_kick(file)
+    }
+    fn read_kick(&self) -> std::io::Result<bool> {
+        vl();
+        self.0.read_kick()
+    }
+    fn set_call(&self, file: Option<std::fs::File>) {
+        vl();
+        self.0.set_call(file)
+    }
+    fn set_err(&self, file: Option<std::fs::File>) {
+        vl();
+        self.0.set_err(file)
     }
 }
